@@ -99,6 +99,9 @@ func buildFixture() *schemabuilder.Schema {
 			PL: &Leaf{1, "l1"}, VL: Leaf{2, "l2"}, Ls: []*Leaf{{3, "l3"}, nil, {4, "l4"}}, VLs: []Leaf{{5, "l5"}}, Cs: []Color{1, 2}, Ren: "r"}
 	}
 	sparse := func() *Shape { return &Shape{C: 2, T: time.Date(1999, 1, 1, 0, 0, 0, 0, time.UTC)} }
+	// one long-lived object reachable through several root fields (same pointer: the same source for cached fields)
+	shared := full()
+	full = func() *Shape { return shared }
 	q := s.Query()
 	q.FieldFunc("full", func() *Shape { return full() })
 	q.FieldFunc("sparse", func() *Shape { return sparse() })
@@ -224,7 +227,7 @@ func sharedFragments(a *advert.Advertised) []qcase {
 	paths := map[string][]wrapFn{}
 	var order []string
 	addPath := func(t string, w wrapFn) bool {
-		if len(paths[t]) >= 2 {
+		if len(paths[t]) >= 6 {
 			return false
 		}
 		if len(paths[t]) == 0 {
@@ -299,8 +302,8 @@ func sharedFragments(a *advert.Advertised) []qcase {
 						continue // same name and kind under another type: the property does not say
 					}
 				}
-				for _, w1 := range paths[n1] {
-					for _, w2 := range paths[n2] {
+				for _, w1 := range first2(paths[n1]) {
+					for _, w2 := range first2(paths[n2]) {
 						for _, flip := range []bool{false, true} {
 							x, y := w1("a", spread), w2("b", spread)
 							rx, ry := w1("a", body), w2("b", body)
@@ -315,7 +318,43 @@ func sharedFragments(a *advert.Advertised) []qcase {
 			}
 		}
 	}
+	// the same object type reached through two paths, one composite field selected under the same alias with two
+	// different sub-selections (whatever is memoised per field must not be shared between the two selections)
+	for _, n := range order {
+		t := a.Types[n]
+		if len(paths[n]) < 2 {
+			continue
+		}
+		for i := range t.Fields {
+			f := &t.Fields[i]
+			ft := a.Types[f.Type.Named().Name]
+			if ft.Kind != "OBJECT" {
+				continue
+			}
+			all := a.Scalars(ft, 0)
+			if len(all) < 3 {
+				continue
+			}
+			s1 := &advert.Sel{Alias: f.Name, Field: f, Sub: all[:2]}
+			s2 := &advert.Sel{Alias: f.Name, Field: f, Sub: all[len(all)-2:]}
+			for pi, p1 := range paths[n] {
+				for _, p2 := range paths[n][pi+1:] {
+					for _, pr := range [][2]*advert.Sel{{s1, s2}, {s2, s1}} {
+						root := []*advert.Sel{p1("a", []*advert.Sel{pr[0]}), p2("b", []*advert.Sel{pr[1]})}
+						out = append(out, qcase{text: "{ " + a.Print(root) + " }", root: root, wellFormed: true, kind: "two-paths-same-alias"})
+					}
+				}
+			}
+		}
+	}
 	return out
+}
+
+func first2[T any](s []T) []T {
+	if len(s) > 2 {
+		return s[:2]
+	}
+	return s
 }
 
 func run(rp *explore.Report, tier string) {
@@ -366,8 +405,14 @@ func run(rp *explore.Report, tier string) {
 			continue
 		}
 		rp.Nontrivial++
-		for si, sched := range []graphql.WorkScheduler{gqlfix.FIFO{}, gqlfix.LIFO{}} {
-			res, err := gqlfix.Exec(context.Background(), schema, sched, c.text, nil)
+		for si, sched := range []graphql.WorkScheduler{gqlfix.FIFO{}, gqlfix.LIFO{}, nil} {
+			var res interface{}
+			var err error
+			if sched == nil { // inside a reactive rerunner (Expensive fields are memoised there)
+				res, err = gqlfix.ExecReactive(schema, gqlfix.FIFO{}, c.text, nil)
+			} else {
+				res, err = gqlfix.Exec(context.Background(), schema, sched, c.text, nil)
+			}
 			if err != nil {
 				fail("accepted-cannot-go-wrong", c.kind, c.text, "execution of an accepted query failed (scheduler %d): %v", si, err)
 				continue
@@ -382,5 +427,5 @@ func run(rp *explore.Report, tier string) {
 
 func init() {
 	reg.Register(&reg.Harness{Property: "C14", Name: "c14/advertised", Level: "exploration", Run: run,
-		Rule: "fixture of Go shapes (all scalar widths, named scalars, enum, time, bytes, text-marshaler, pointers, slices of values/pointers/enums, nested and value structs, union, NonNullable / ListEntryNonNullable / Expensive / batch methods, methods with every signature form, arguments incl. input objects) -> introspection JSON. From the JSON alone: every path of composite fields up to depth 2 (thorough 3), ending in all leaves / all fields / each field alone / the same field under two aliases (arguments filled from advertised input types), plus at every position the three ill-formedness kinds (unknown field, selection on a leaf, none on a composite), plus one named fragment (each field of each object type) spread at two positions: the same type twice (well-formed) or a second type that lacks the field or has it with the other leaf/composite kind (ill-formed), in both orders. Oracle: ill-formed => rejected; well-formed => accepted, executes without error under FIFO and LIFO schedulers, and the response conforms to the advertised types (exact aliases, lists, scalar JSON kinds, enum values, null only where nullable, list entries excepted)"})
+		Rule: "fixture of Go shapes (all scalar widths, named scalars, enum, time, bytes, text-marshaler, pointers, slices of values/pointers/enums, nested and value structs, union, NonNullable / ListEntryNonNullable / Expensive / batch methods, methods with every signature form, arguments incl. input objects) -> introspection JSON. From the JSON alone: every path of composite fields up to depth 2 (thorough 3), ending in all leaves / all fields / each field alone / the same field under two aliases (arguments filled from advertised input types), plus at every position the three ill-formedness kinds (unknown field, selection on a leaf, none on a composite), plus one named fragment (each field of each object type) spread at two positions: the same type twice (well-formed) or a second type that lacks the field or has it with the other leaf/composite kind (ill-formed), in both orders; plus one composite field selected under one alias with two different sub-selections at two paths to the same (long-lived) object. Oracle: ill-formed => rejected; well-formed => accepted, executes without error under FIFO and LIFO schedulers and inside a reactive rerunner, and the response conforms to the advertised types (exact aliases, lists, scalar JSON kinds, enum values, null only where nullable, list entries excepted)"})
 }
